@@ -35,6 +35,8 @@ CHECKS = {
          "as C09; unit weights exact, other weights 4 ulp / 20 ppm"),
  "C15": ("model_checking", "7", "Optimizer.tla trace specification: reload(i) restores knobs (ulp) and flags and reproduces the row's penalty and targets; every logged row reproducible by the oracle; step(take_best) ends within tolerance or on the minimum-penalty row; the log stays rectangular after failures",
          "as C09; all rows of all logs produced by the enumerated call sequences, including failing solves and faults in the user's action"),
+ "C19": ("model_checking", "5", "Madx.tla: syntax trees of the MAD-X grammar grown production by production, their minimal- and fully-parenthesised token sequences and exact immediate / deferred values; every string parsed and evaluated by the real MadxEval immediately and deferred (item and attribute mode), compared with the spec and with Python on the tree, then pushed through the manager and re-compared after each name changed",
+         "3 productions over 5 atoms + 2 over 9 atoms quick (4 productions thorough), 3 environments, several number / operator / spacing spellings; libm functions decided by CPython"),
  "C07": ("model_checking", "6", "TableIndex.tla (index column + lazily built cache) checked with TLC; every generated transition replayed on a real Table, lookups compared with the spec's Resolve",
          "3-name alphabet, 0..3 rows exhaustive (4 thorough), node identity includes last probed snapshot so lookup/update interleavings stay distinct"),
  "C08": ("model_checking", "6", "RowSel.tla: the selector semantics as pure TLA+ operators; TLC enumerates every (table, selector[, selector]) case with its expected rows and each case is executed on a real Table (rows / rows.rows / indices / mask) under several hash seeds",
